@@ -17,7 +17,7 @@ def parseOp (w : String) : Option Op :=
   | "scanbuffer" => some (.scanbuffer a b) | "create" => some (.create a b) | "switch" => some (.switch a)
   | "pushbuf" => some (.pushbuf a) | "popbuf" => some .popbuf | "flush" => some (.flush a)
   | "flushcur" => some .flushcur | "delete" => some (.delete a) | "restart" => some (.restart a)
-  | "newyyin" => some (.newyyin a) | "destroy" => some .destroy
+  | "newyyin" => some (.newyyin a) | "destroy" => some .destroy | "cont" => some .cont | "include_end" => some .includeEnd
   | _ => none
 
 structure RunSpec where
@@ -26,6 +26,8 @@ structure RunSpec where
   main : List Op := []
   acts : Array (List Op) := #[]
   wraps : List (Option Nat) := []
+  eofDefault : List Op := []
+  eacts : Array (List Op) := #[]
   maxEvents : Nat := 200000
 
 def setAt {α : Type} (a : Array α) (i : Nat) (v : α) (dflt : α) : Array α :=
@@ -39,6 +41,8 @@ def RunSpec.ofCase (c : Case) : RunSpec := Id.run do
     | "src", id :: rest => r := { r with srcs := setAt r.srcs (id.toNat?.getD 0) (parseHex (rest.head?.getD "")) [] }
     | "main", ops => r := { r with main := ops.filterMap parseOp }
     | "act", id :: ops => r := { r with acts := setAt r.acts (id.toNat?.getD 0) (ops.filterMap parseOp) [] }
+    | "eact", id :: ops => r := { r with eacts := setAt r.eacts (id.toNat?.getD 0) (ops.filterMap parseOp) [] }
+    | "eofact", ops => r := { r with eofDefault := ops.filterMap parseOp }
     | "wrap", ws => r := { r with wraps := ws.map fun w => if w == "-" then none else w.toNat? }
     | "bolneeded", v :: _ => r := { r with cfg := { r.cfg with bolNeeded := v == "1" } }
     | "haslineno", v :: _ => r := { r with cfg := { r.cfg with hasLineno := v == "1" } }
@@ -58,7 +62,7 @@ def cmdTrace (c : Case) (useSpec : Bool) : IO UInt32 := do
   let rs := RunSpec.ofCase c
   let infos := c.ruleInfos
   let M := if useSpec then specMatcher c.ruleSet infos else tableMatcher c.tables infos
-  let s0 : AState := { srcs := rs.srcs, wraps := rs.wraps, acts := rs.acts }
+  let s0 : AState := { srcs := rs.srcs, wraps := rs.wraps, acts := rs.acts, eofDefault := rs.eofDefault, eacts := rs.eacts }
   let s := runMain M { rs.cfg with numRules := c.tables.numRules } rs.maxEvents s0 rs.main
   let out := if s.out.size > rs.maxEvents then s.out.extract 0 rs.maxEvents |>.push "cap" else s.out
   let stdout ← IO.getStdout
